@@ -373,7 +373,18 @@ where
                 .lr_cactus(None, laidx, laidx + 1, n.pstack.clone(), &mut None);
         // Shifting can leave the stack as it was (e.g. in a left-recursive list rule), so a
         // successful shift must be kept even if the stacks are equal.
-        if n.pstack != n_pstack || new_laidx > laidx {
+        // If nothing was shifted, the reductions performed under this lookahead are only worth
+        // keeping if they reached the accept state: otherwise the lookahead is an error here, and
+        // the partially reduced stack is not one that replaying the repairs can reproduce.
+        let accept = new_laidx == laidx
+            && n.pstack != n_pstack
+            && matches!(
+                self.parser
+                    .stable
+                    .action(*n_pstack.val().unwrap(), self.parser.next_tidx(laidx)),
+                Action::Accept
+            );
+        if new_laidx > laidx || accept {
             let n_repairs = if new_laidx > laidx {
                 n.repairs.child(RepairMerge::Repair(Repair::Shift))
             } else {
